@@ -398,7 +398,7 @@ def make_memfs():
             if f:
                 if f.get("raise"):
                     raise RuntimeError("pv: injected callback failure")
-                if f.get("code") is not None:
+                if f.get("code") is not None and orig.__name__ != "close":
                     return f["code"]
             return orig(self, *a, **k)
         wrapped.__name__ = orig.__name__
@@ -407,8 +407,18 @@ def make_memfs():
     for name in ("open", "stat", "lstat", "list_folder", "remove", "rename", "posix_rename", "mkdir", "rmdir",
                  "chattr", "readlink", "symlink"):
         setattr(MemFS, name, _forced(getattr(MemFS, name)))
-    for name in ("read", "write", "stat", "chattr"):
+    for name in ("read", "write", "stat", "chattr", "close"):
         setattr(MemHandle, name, _forced(getattr(MemHandle, name)))
+
+    def _raise_only(orig):
+        def wrapped(self, *a, **k):
+            f = getattr(self, "force", None)
+            if f and f.get("raise") and f.get("canonicalize"):
+                raise RuntimeError("pv: injected callback failure")
+            return orig(self, *a, **k)
+        return wrapped
+
+    MemFS.canonicalize = _raise_only(MemFS.canonicalize)
     return MemFS, MemHandle
 
 
